@@ -27,4 +27,9 @@ CHECKS = {
   "note": "Partial: panic-freedom of library parsers (x509, ssh, pem, jose, multipart) is fuzzing, not a theorem. Trusted: parsers in front of the model, fake STS.",
   "technique": "Coq proof of the decision predicate + exhaustive-size differential sweep + mutation fuzzing (support)",
  },
+ "C13": {
+  "text": "Theorems over the decision layer of CanRedirectToURL / CorsOriginAllowed / the generic CORS check: c13_decision (acceptance implies https, a real host, no opaque part, empty query, no '..' in the path, a configured domain that equals the host or is separated from it by a dot, and a pattern match when patterns are configured), c13_no_lookalike (a host that merely ends with the domain without a dot boundary never matches, for all strings), c13_own_hosts_match, c13_no_config, c13_cors. Correspondence: ~2200 (thorough 120000) adversarial URLs x 8 client configurations: the real validators vs the model in Coq on the components url.Parse delivers; GET /idp/oauth2/authorize end to end; independent WHATWG host extraction as oracle.",
+  "note": "Partial: that net/url and a browser agree on the host of the raw string is differential testing against the harness's WHATWG rules, not a theorem. Trusted: net/url, regexp in front of the model.",
+  "technique": "Coq proof of the decision layer over all strings + differential correspondence with WHATWG oracle",
+ },
 }
